@@ -31,9 +31,12 @@ META = {
         "guards is folded: forward applies masked (bounds based) stages before whole-array stages, inverse "
         "is the exact reverse with the same masks, fit follows the forward order, each stage reads the "
         "current array at its mask and writes back at the same mask, and the returned log-Jacobian is the "
-        "sum of every stage's second result with coefficient +1."
+        "sum of every stage's second result with coefficient +1. C04.deriv additionally differentiates every element-wise "
+        "map symbolically (syntax-directed derivative of the folded map, log-absolute-value normal form) and shows that the "
+        "reported log-Jacobian of forward and of inverse is exactly the sum over parameters of log|d out/d in|, i.e. the log "
+        "absolute determinant of the (diagonal) true derivative."
     ),
-    "not_decided": "that each element-wise formula is the true derivative (a consistent error on both members of a pair is invisible to antisymmetry), numerical round trips, the clipping margin",
+    "not_decided": "numerical round trips, behaviour inside the clipping margin, the Jacobian of the third-party flow used as preconditioning map",
     "assumptions": [
         "real arithmetic, element-wise NumPy semantics, zeros()/ones() seen through broadcasting as 0/1",
         "exp(log t) = t, erf(erfinv t) = t, sqrt(t)^2 = t on the domains where the code is defined",
@@ -272,6 +275,42 @@ def composite(ctx, repo, c):
     ctx.floor("composite on/off combinations folded", combos, 2 ** len(flags))
 
 
+def deriv_check(ctx, repo, c, construct_prefix):
+    """C04.deriv: each direction's log-Jacobian == column sum of log|d out / d in|
+    of the element-wise map, by symbolic differentiation of the folded map."""
+    from ..deriv import NotDifferentiable, colsum, diff, logabs, normalise_jacobian
+
+    for direction in ("forward", "inverse"):
+        m = c.resolve(direction)
+        ev = Evaluator(repo, batch_params=("x", "y", "x_fit"),
+                       assume=lambda cnd: False if cnd in (T.atom("eps"), self_attr("eps")) else None)
+        init = c.resolve("__init__")
+        if init is not None:
+            fold(repo, init, c, ev=ev)
+        fit = c.resolve("fit")
+        if fit is not None and _stores_state(fit):
+            fold(repo, fit, c, args={fit.params[1]: T.atom("x_fit")}, ev=ev)
+        x = T.atom(m.params[1])
+        _, ret = fold(repo, m, c, ev=ev)
+        ctx.count("functions_folded")
+        ret = T.strip_raise(ret)
+        construct = f"{construct_prefix}.{direction}"
+        if ret[0] != "t" or len(ret[1]) != 2:
+            ctx.unknown("C04.deriv", construct, loc_of(m), "does not return a pair")
+            continue
+        y, j = unclip(ret[1][0]), unclip(ret[1][1])
+        try:
+            d = diff(y, x)
+            want = colsum(logabs(d), x)
+            got = normalise_jacobian(j, x)
+        except NotDifferentiable as e:
+            ctx.unknown("C04.deriv", construct, loc_of(m), f"map is not in the differentiable element-wise fragment ({e})")
+            continue
+        ctx.decide(got == want, "C04.deriv", construct, loc_of(m),
+                   f"log-Jacobian == sum over parameters of log|d {direction}(v)/dv| = {T.show(want)[:140]}",
+                   f"reported log-Jacobian {T.show(got)[:220]} is not the log absolute derivative of the map, {T.show(want)[:220]} (d/dv = {T.show(d)[:120]})")
+
+
 def run(ctx):
     repo = ctx.repo
     classes = leaf_classes(repo)
@@ -282,6 +321,7 @@ def run(ctx):
     for c in leaves:
         needs_fit = "fit" in c.methods and c.resolve("fit") is not None and _stores_state(c.resolve("fit"))
         out = pair_check(ctx, repo, c, "forward", "inverse", c.ident, fit_first=needs_fit)
+        deriv_check(ctx, repo, c, c.ident)
         if out is None:
             continue
         ev, x, y, jf = out
@@ -395,6 +435,15 @@ MUTANTS = [
     M("composite fit skips periodic", _T, "x = update_at_indices( x, (slice(None), self.periodic_mask), self._periodic_transform.fit(x[:, self.periodic_mask]), )", "pass", ("C04.order",), within="CompositeTransform.fit"),
     M("affine fit returns raw data", _T, "return self.forward(x)[0]", "return x", "C04.fit", within="AffineTransform.fit"),
     M("bounded scale Jacobian over wrong quantity", _T, "self._denom = self.upper - self.lower", "self._denom = self.upper", "C04.unit"),
+]
+MUTANTS += [
+    M("unit-interval scale Jacobian sign flipped on both sides", _T, "self._scale_log_abs_det_jacobian = -xp.log(self._denom).sum()", "self._scale_log_abs_det_jacobian = xp.log(self._denom).sum()", "C04.deriv"),
+    M("affine Jacobian sign flipped in fit and load", _T, "self.log_abs_det_jacobian = -self.xp.log(self.xp.abs(self._std)).sum()\n        return self.forward(x)[0]", "self.log_abs_det_jacobian = self.xp.log(self.xp.abs(self._std)).sum()\n        return self.forward(x)[0]", "C04.deriv"),
+    M("probit Jacobian constant wrong on both sides", _T, "log_abs_det_jacobian = 0.5 * (math.log(2 * math.pi) + y**2).sum(-1)", "log_abs_det_jacobian = 0.5 * (math.log(math.pi) + y**2).sum(-1)", ("C04.deriv", "C04.anti"),
+      more=[("log_abs_det_jacobian = -(0.5 * (math.log(2 * math.pi) + y**2)).sum(-1)", "log_abs_det_jacobian = -(0.5 * (math.log(math.pi) + y**2)).sum(-1)")]),
+    M("probit map scaled but Jacobian not", _T, "y = erfinv(2 * y - 1) * math.sqrt(2)", "y = erfinv(2 * y - 1) * 2", ("C04.deriv",)),
+    M("affine scales by the variance", _T, "y = (x - self._mean) / self._std", "y = (x - self._mean) / self._std**2", ("C04.deriv", "C04.rt")),
+    M("jacobian summed over the batch axis", _T, "log_abs_det_jacobian = 0.5 * (math.log(2 * math.pi) + y**2).sum(-1)", "log_abs_det_jacobian = 0.5 * (math.log(2 * math.pi) + y**2).sum(0)", ("C04.deriv", "C04.anti")),
 ]
 NEUTRALS = [
     M("affine forward via temporaries", _T, "y = (x - self._mean) / self._std", "centred = x - self._mean\n        y = centred / self._std"),
